@@ -61,4 +61,19 @@ TEXT = {
         "level": "Generated search over keys, headers, cookie sizes, pool levels; per packet ~1000 (quick, every 7th bit) to ~8000 (thorough, all bits) mutants plus ~100 field edits. Exploration of the key/packet space, exhaustive over single-bit mutations of each generated packet in the thorough tier.",
         "note": "Layer 1 (pure functions). miscreant is trusted as reference AEAD. Cookie fields shorter than 24 bytes (below the 28-byte minimum extension field) and response cookie lengths that are not a multiple of 4 are outside the generator (documented decoder/constructor limits, not this project's 124-byte cookies). Found and repaired P4 (1063f3c), P5 (8367138), P6 (2d1881a) and truncated-authenticator zero-extension (68dd72b).",
     },
+    "C03": {
+        "technique": "model-based stateful property testing (rapid) of the real IPClient over loopback sockets against the harness's own protocol-conformant NTP server model (RFC 5905 + interleaved mode) with injected loss, duplication, stale and misdirected replies and a per-request changing server clock; oracle = half-RTT envelope around the model's true offset of exactly the exchange the result must describe, plus the literal |off-theta| <= rtd/2 bound from the client's evaluation log",
+        "level": "Generated search over exchange/fault sequences (up to ~1500 client calls quick). Exploration; timing is measured, not controlled, and schedules are those of the kernel and Go runtime plus injected delays.",
+        "note": "IP transport only so far in this check (the SCION transport is exercised in C13/C15 once built). Harness instants and kernel timestamps come from the same CLOCK_REALTIME, which must not be stepped during a run. The server model is the harness's own reading of the protocol.",
+    },
+    "C09": {
+        "technique": "exhaustive enumeration of the first header byte x datagram lengths x trailing-data kinds (incl. valid, bit-flipped and foreign-key NTS requests) plus rapid-generated headers, sent to the real IP listener over loopback; sentinel-delimited reply counting against a shouldReply predicate written from the statement",
+        "level": "The first-byte x length x trailing-kind grid is enumerated completely in the thorough tier (a third of the non-valid first bytes per quick run); the other 47 header bytes are sampled. Exploration with an exhaustive sub-grid.",
+        "note": "IP listener only (the SCION listener shares ValidateRequest/handleRequest and is covered by C13 when built). Relies on per-socket-pair FIFO delivery on loopback; a lost sentinel is retried 6 times.",
+    },
+    "C20": {
+        "technique": "stateful property testing (rapid) of the real ntske.Fetcher against a scripted TLS 1.3 key-exchange server: generated record streams, ALPN offers, truncations, segmentations and resets over multi-call histories; oracle = independent record parser evaluating the statement's conditions, independently derived RFC 8915 exporter keys from the server's side of the same session, pool/connection-count model",
+        "level": "Generated search over key-exchange histories (~2500 FetchData calls quick) plus a truncation sweep of a valid message at every byte offset (thorough). Exploration.",
+        "note": "TLS only (QUIC/SCION key exchange not exercised); certificate validation is disabled as in the project's insecure-skip-verify configuration; warning records and AEAD lists with several ids are not judged. Found and repaired P8 (375c2ec).",
+    },
 }
